@@ -566,6 +566,30 @@ class Analysis:
             return ("ctx", (v[1], env))
         return ("opaque", v[1])
 
+    def closure_must_push(self, fvv):
+        """tree kinds that a split function pushes (inside a tuple handed to Vec::push) on every path to its return"""
+        if fvv is None or fvv[0] not in ("closure", "fn") or fvv[1] not in self.P.bodies:
+            return set()
+        b = self.P.bodies[fvv[1]]
+        cfg = self.cfg(fvv[1])
+        by_kind = defaultdict(set)
+        for bi, blk in enumerate(b["blocks"]):
+            if blk["cl"]:
+                continue
+            t = blk["t"]
+            if t["t"] != "call" or not ((t["f"].get("k") or {}).get("res") or "").endswith("::push"):
+                continue
+            # kinds mentioned in the aggregates of this block (the pushed tuple)
+            for st_ in blk["s"]:
+                rv = st_["rv"]
+                if rv.get("r") == "agg" and rv.get("ak") == "adt" and rv.get("adt") == self.dom.ast_kind_adt and not rv.get("o"):
+                    by_kind[rv.get("v")].add(bi)
+        out = set()
+        for kname, blocks in by_kind.items():
+            if cfg.must_pass(blocks):
+                out.add(kname)
+        return out
+
     def passes_domain_mut(self, ctx, st, t):
         body = self.P.bodies[ctx[0]]
         for a in t["a"]:
@@ -709,7 +733,7 @@ class Analysis:
                 if ci is not None:
                     new_val = ("lex", int(ci))
             elif data == "error":
-                if self.mode == "shape":
+                if self.mode == "shape" and not getattr(self, "keep_error_paths", False):
                     st.w0 = None          # only error-free paths are of interest
                     st.w1 = True
             elif data == "start_node":
@@ -854,6 +878,12 @@ class Analysis:
             for v in live[1:]:
                 nb = jv(nb, v)
             st.set_base(nb)
+            if self.mode == "shape" and data[0].endswith("::split_remap_current") and "1" in vals and vals["1"][0] is not None:
+                # the split closure pushes (range, kind) pairs that split_remap_current hands to the sink: kinds pushed on every
+                # path of the closure are emitted whenever the split happens (result true)
+                fvv = self.op_val(ctx, st, a[2]) if len(a) > 2 else None
+                for kname in self.closure_must_push(fvv):
+                    vals["1"] = (vals["1"][0] | {("E", len(st.frames), frozenset([kname]))}, vals["1"][1])
             if tuple(s["outs"]) != ("*",):
                 new_cond = (vals, DEAD)
             new_val = s["retv"]
@@ -1575,11 +1605,58 @@ def rule_g3(P, tables):
     findings, obl = [], []
     n_checked = n_norec = 0
     used = set()
+    # accessors that the parse phase itself calls (include resolution) run on trees that may contain errors: for them the child
+    # must be present on ALL paths, not only the error-free ones
+    early = set()
+    for key, b in P.bodies.items():
+        if not key.startswith("fea_rs::parse::"):
+            continue
+        for s_ in P.iter_sites(key):
+            if s_["kind"] in ("call", "fnref"):
+                for tg in s_["targets"]:
+                    tb = P.bodies.get(tg)
+                    if tb is not None and tg.startswith("fea_rs::token_tree::typed::") and tb.get("impl_self"):
+                        early.add((tb["impl_self"].rsplit("::", 1)[-1].split("<")[0], tg.rsplit("::", 1)[-1]))
+    A_all = None
     for e in typed:
         if not e.get("need"):
             continue
         recs = {frozenset(r) for (c, l), r in A.shape.get(e["node"], {}).items() if c in live}
         name = f"{e['type']}::{e['accessor']}"
+        if (e["type"], e["accessor"]) in early:
+            if A_all is None:
+                A_all = Analysis(P, dom, mode="shape")
+                A_all.keep_error_paths = True
+                A_all.solve(spec["roots"])
+                live_all = A_all.live_contexts()
+            recs_all = {frozenset(r) for (c, l), r in A_all.shape.get(e["node"], {}).items() if c in live_all}
+            need = set(e["need"])
+            missing = [r for r in recs_all if not any(S <= need for S in r)]
+            ex = exceptions.get((e["type"], e["accessor"] + "@parse"))
+            if missing and ex is not None:
+                used.add((e["type"], e["accessor"] + "@parse"))
+                # witness: the named guard functions still test for the child kind before the node is handed on
+                w = ex.get("witness") or {}
+                wok = bool(w.get("fns"))
+                for spec_fn in w.get("fns", []):
+                    roots_ = [k for k, b_ in P.bodies.items() if (b_.get("impl_self") or "").split("<")[0] == spec_fn["impl_self"] and k.rsplit("::", 1)[1] == spec_fn["name"]]
+                    fam = [k for k in P.bodies if any(k == r or k.startswith(r + "::{closure") for r in roots_)]
+                    mention = any(st_["rv"].get("r") == "agg" and st_["rv"].get("adt") == dom.ast_kind_adt and st_["rv"].get("v") == w.get("kind")
+                                  for k in fam for blk in P.bodies[k]["blocks"] for st_ in blk["s"])
+                    prom = any(st_["rv"].get("r") == "agg" and st_["rv"].get("v") == w.get("kind")
+                               for k in P.bodies if any(k.startswith(f + "#promoted") for f in fam) for blk in P.bodies[k]["blocks"] for st_ in blk["s"])
+                    if not fam or not (mention or prom):
+                        wok = False
+                if wok:
+                    missing = []
+            ok = not missing
+            obl.append({"rule": "G3", "inst": f"{name} is called while parsing (trees with errors included): every {e['node']} node contains a child of kind {'/'.join(sorted(need))[:40]} on all paths", "ok": ok})
+            if not ok:
+                have = sorted({"/".join(sorted(S)) for S in missing[0]})
+                findings.append({"rule": "G3", "key": f"G3|{e['type']}|{e['accessor']}|parse-phase",
+                                 "msg": f"typed::{name}() unwraps a child of kind {sorted(need)} and is called from the parse phase (fea_rs::parse::*, e.g. include resolution), which runs on trees "
+                                        f"with errors too; the parser can finish a {e['node']} node without that child after reporting an error (children it always has: {have[:8]}): "
+                                        f"such an input makes the parser itself panic", "loc": "fea-rs/src/token_tree/typed.rs", "detail": {"must_emit_all_paths": have}})
         if not recs:
             n_norec += 1
             obl.append({"rule": "G3", "inst": f"{name}: no {e['node']} node is finished on an error-free parser path (built by the rewriter or never)", "ok": True})
